@@ -30,6 +30,11 @@ pub struct Case {
     /// n >= 2 = pieces of n bytes. Fragmentation is not a transfer failure: the request sequence must not change.
     #[serde(default)]
     pub pieces: u16,
+    /// where the ChunkIndex handed to chunk_stream says the wanted chunks go in the output: 0 = all at offset 0,
+    /// 1 = ascending in dictionary order, 2 = descending, 3 = scattered. The requests depend on WHICH chunks are missing,
+    /// never on where the caller is going to put them.
+    #[serde(default)]
+    pub index_mode: u8,
     /// subsets of descriptors to fetch, as bit masks over the dictionary order (bit i = descriptor i)
     pub masks: Vec<Vec<bool>>,
 }
@@ -77,7 +82,7 @@ pub fn build(a: &ArchCase) -> Result<Option<Built>, String> {
 }
 
 /// Fetch each subset through Archive::chunk_stream over HttpReader and compare the server's Range log.
-pub fn run_masks(b: &Built, hash_len: usize, pieces: u16, masks: &mut dyn Iterator<Item = Vec<bool>>, mut per_mask: impl FnMut(&[bool], usize, usize)) -> Result<(), String> {
+pub fn run_masks(b: &Built, hash_len: usize, pieces: u16, index_mode: u8, masks: &mut dyn Iterator<Item = Vec<bool>>, mut per_mask: impl FnMut(&[bool], usize, usize)) -> Result<(), String> {
     let script = match pieces {
         0 => http::Script { max_requests: 1 << 30, ..Default::default() },
         1 => {
@@ -110,7 +115,13 @@ pub fn run_masks(b: &Built, hash_len: usize, pieces: u16, masks: &mut dyn Iterat
             let mut sel: Vec<(u64, usize)> = vec![];
             for (i, d) in b.descr.iter().enumerate() {
                 if mask.get(i).copied().unwrap_or(false) {
-                    idx.add_chunk(HashSum::from(&d.2[..]), d.3 as usize, &[0]);
+                    let off: u64 = match index_mode % 4 {
+                        0 => 0,
+                        1 => i as u64 * 70_000,
+                        2 => (b.descr.len() - i) as u64 * 70_000,
+                        _ => ((i as u64 + 1).wrapping_mul(2654435761) % 1009) * 70_000,
+                    };
+                    idx.add_chunk(HashSum::from(&d.2[..]), d.3 as usize, &[off]);
                     sel.push((d.0, d.1));
                 }
             }
@@ -179,7 +190,7 @@ fn run_case(c: &Case, rec: &mut CaseRec) -> Result<(), String> {
     };
     let mut nontrivial = false;
     let mut it = c.masks.iter().cloned();
-    run_masks(&b, c.arch.cfg.hash_len, c.pieces, &mut it, |_m, runs, sel| {
+    run_masks(&b, c.arch.cfg.hash_len, c.pieces, c.index_mode, &mut it, |_m, runs, sel| {
         if runs >= 2 && sel > runs {
             nontrivial = true;
         }
@@ -189,6 +200,8 @@ fn run_case(c: &Case, rec: &mut CaseRec) -> Result<(), String> {
     rec.class_if(c.arch.enc.is_some(), "independent_encoder_layout");
     rec.class_if(c.pieces == 1, "body_pieces_end_on_chunk_boundaries");
     rec.class_if(c.pieces >= 2, "body_in_small_pieces");
+    rec.class_if(c.index_mode % 4 >= 2, "index_places_chunks_in_another_order");
+    rec.class_if(c.arch.enc.as_ref().map(|e| !e.desc_keys.is_empty()).unwrap_or(false), "descriptor_table_not_in_first_occurrence_order");
     rec.class_if(c.arch.enc.as_ref().map(|e| !e.order_keys.is_empty()).unwrap_or(false), "dictionary_order_not_file_order");
     rec.class_if(c.arch.enc.as_ref().map(|e| e.gaps.iter().any(|g| *g > 0)).unwrap_or(false), "gaps_between_chunks");
     Ok(())
@@ -203,7 +216,8 @@ fn small_archive_strategy(max_chunks: usize) -> impl Strategy<Value = ArchCase> 
         hash_len_strategy(8),
         prop_oneof![
             2 => Just(None),
-            2 => (prop::collection::vec(any::<u16>(), 0..6), prop::collection::vec(prop_oneof![3 => Just(0u8), 1 => 1u8..9], 0..5), 0u16..20).prop_map(|(order_keys, gaps, slack)| Some(EncSpec { order_keys, gaps, slack, version: "x".into(), ..Default::default() })),
+            3 => (prop::collection::vec(any::<u16>(), 0..6), prop::collection::vec(prop_oneof![3 => Just(0u8), 1 => 1u8..9], 0..5), 0u16..20, prop_oneof![2 => Just(vec![]), 1 => prop::collection::vec(any::<u16>(), 1..6), 1 => Just(vec![5u16, 4, 3, 2, 1, 0])])
+                .prop_map(|(order_keys, gaps, slack, desc_keys)| Some(EncSpec { order_keys, gaps, slack, desc_keys, version: "x".into(), ..Default::default() })),
         ],
         any::<bool>(),
     )
@@ -215,7 +229,7 @@ fn small_archive_strategy(max_chunks: usize) -> impl Strategy<Value = ArchCase> 
 }
 
 fn random_mask_case_strategy() -> impl Strategy<Value = Case> {
-    (small_archive_strategy(60), prop::collection::vec(prop::collection::vec(prop::bool::weighted(0.6), 60), 1..6), prop_oneof![2 => Just(0u16), 2 => Just(1u16), 1 => 2u16..40]).prop_map(|(arch, masks, pieces)| Case { arch, masks, pieces })
+    (small_archive_strategy(60), prop::collection::vec(prop::collection::vec(prop::bool::weighted(0.6), 60), 1..6), prop_oneof![2 => Just(0u16), 2 => Just(1u16), 1 => 2u16..40], 0u8..4).prop_map(|(arch, masks, pieces, index_mode)| Case { arch, masks, pieces, index_mode })
 }
 
 fn l2_case(c: &l2scen::L2Scen, rec: &mut CaseRec) -> Result<(), String> {
@@ -288,7 +302,8 @@ impl Prop for C07 {
                 let mut stats: Vec<(Vec<bool>, usize, usize)> = vec![];
                 let mut it = (0..total).map(|m| (0..n).map(|k| (m >> k) & 1 == 1).collect::<Vec<bool>>());
                 let pieces: u16 = match i % 3 { 0 => 0, 1 => 1, _ => 7 };
-                let r = guarded(|| run_masks(&b, arch.cfg.hash_len, pieces, &mut it, |m, runs, sel| stats.push((m.to_vec(), runs, sel))));
+                let index_mode: u8 = ((i / 3) % 4) as u8;
+                let r = guarded(|| run_masks(&b, arch.cfg.hash_len, pieces, index_mode, &mut it, |m, runs, sel| stats.push((m.to_vec(), runs, sel))));
                 count += stats.len() as u64;
                 for (m, runs, sel) in &stats {
                     let mut rec = CaseRec::default();
@@ -300,7 +315,7 @@ impl Prop for C07 {
                     let key = blake2_64(&[b"subsets", &(i as u64).to_le_bytes(), format!("{:?}", m).as_bytes(), &cx.seed.to_le_bytes()]);
                     let arch2 = arch.clone();
                     let m2 = m.clone();
-                    cx.account(rec, key, move || serde_json::to_value(&Case { arch: arch2, masks: vec![m2], pieces }).unwrap());
+                    cx.account(rec, key, move || serde_json::to_value(&Case { arch: arch2, masks: vec![m2], pieces, index_mode }).unwrap());
                 }
                 if let Err(f) = r {
                     // the failing mask is the one after the last accounted one; shrink by replaying single masks
@@ -308,9 +323,9 @@ impl Prop for C07 {
                         .map(|m| (0..n).map(|k| (m >> k) & 1 == 1).collect::<Vec<bool>>())
                         .find(|m| {
                             let mut one = std::iter::once(m.clone());
-                            run_masks(&b, arch.cfg.hash_len, pieces, &mut one, |_, _, _| {}).is_err()
+                            run_masks(&b, arch.cfg.hash_len, pieces, index_mode, &mut one, |_, _, _| {}).is_err()
                         });
-                    let case = Case { arch: arch.clone(), masks: vec![failing.unwrap_or_default()], pieces };
+                    let case = Case { arch: arch.clone(), masks: vec![failing.unwrap_or_default()], pieces, index_mode };
                     cx.fail("subsets", serde_json::to_value(&case).unwrap(), &f);
                     break;
                 }
